@@ -84,6 +84,21 @@ class SpyClock(Clock):
             name = "mrtb:%d" % self.sim.last_mk
         elif "timeItOut" in qn:
             name = "boot:%d" % self.sim.last_boot_write
+        elif find_frame("ebConnect", depth=12) is not None:
+            # the back-off delay of a broker client's reconnect loop (`ebConnect`): remembered per broker client
+            fr = find_frame("ebConnect", depth=12)
+            if "self" in fr.f_locals:
+                bcx = fr.f_locals["self"]
+                self.sim.bc_retry[id(bcx)] = dc
+                self.sim.xbc(getattr(bcx, "b", None), "setTimer %s" % rat(Fraction(delay).limit_denominator(10**9)))
+                origx = dc.cancel
+
+                def cancelx(bcx=bcx, origx=origx):
+                    self.sim.xbc(getattr(bcx, "b", None), "cancelTimer")
+                    return origx()
+
+                dc.cancel = cancelx
+            del fr
         elif find_frame("_load_topic_partitions") is not None:
             fr = find_frame("_load_topic_partitions")
             name = "retry:%d" % self.sim.ltp_frames.get(id(fr), -1)
@@ -109,6 +124,7 @@ class SpyClock(Clock):
         while self.calls and self.calls[0].getTime() <= self.seconds():
             call = self.calls.pop(0)
             call.called = 1
+            self.sim.x_call_fires(call)
             try:
                 call.func(*call.args, **call.kw)
             except Exception as e:
@@ -124,6 +140,13 @@ class SpyNet(Net):
 
         d = Net._connect(self, host, port, factory)
         p = self.pending[-1] if self.pending and self.pending[-1].d is d else None
+        if factory is not bootstrapFactory:
+            self.sim.xbc(getattr(factory, "b", None), "connect %s %d" % (host, port))
+        if factory is not bootstrapFactory and p is not None and self.sim.sync_refuse_left > 0:
+            # an endpoint whose connect() returns an already failed Deferred (immediate refusal)
+            self.sim.sync_refuse_left -= 1
+            p.refuse()
+            return d
         if factory is bootstrapFactory:
             j = self.sim.nboot
             self.sim.nboot += 1
@@ -149,6 +172,7 @@ class SpyNet(Net):
             orig2 = d._canceller
 
             def canceller2(dd):
+                self.sim.xbc(getattr(factory, "b", None), "cancelConnect")
                 orig2(dd)
                 self._cancel_style(dd, host, port)
 
@@ -204,6 +228,7 @@ def make_spy(sim):
 
         def _spy_fired(self, result, k):
             sim.reqs[k]["fired"] = True
+            sim.xbc(self.b, "fire %d %s" % (k, kind_of(result) if isinstance(result, Failure) else ("none" if result is None else "ok")))
             if sim.toplevel_fire == k:
                 sim.toplevel_fire = None
             else:
@@ -222,6 +247,7 @@ def make_spy(sim):
             sim.obs("bcClose %d" % self.b)
             d = _KafkaBrokerClient.close(self)
             if d.called:
+                sim.xbc(self.b, "down")
                 sim.obs("down %d" % self.b)
                 sim.cur_env["sd"].append(self.b)
                 self.down_reported = True
@@ -231,6 +257,7 @@ def make_spy(sim):
             return d
 
         def _spy_down(self, result):
+            sim.xbc(self.b, "down")
             # top level: the step was opened by _connectionLost / connect failure hooks
             if sim.toplevel_down == self.b:
                 sim.toplevel_down = None
@@ -247,7 +274,10 @@ def make_spy(sim):
                 return _KafkaBrokerClient.handleResponse(self, response)
             desc = sim.reply_desc.get((self.b, corr), "ok garbage")
             live = corr in self.requests and self.requests[corr].cancelled is None
-            with sim.step("fire %d %s" % (k, desc)):
+            with sim.xstep("x-reply %d %d %s" % (self.b, k, desc[3:])), sim.step("fire %d %s" % (k, desc)):
+                if sim.xcur is not None and self.proto is not None and self.proto.transport.disconnecting:
+                    # the in-memory transport still delivers after loseConnection(); a TCP transport has stopped reading
+                    sim.xcur["after_lose"] = True
                 if live:
                     sim.toplevel_fire = k
                 else:
@@ -276,6 +306,10 @@ def make_spy(sim):
                 sim.toplevel_fire = None
 
         def _connectionLost(self, reason):
+            with sim.xstep("x-lost %d" % self.b):
+                self._connectionLost2(reason)
+
+        def _connectionLost2(self, reason):
             if self._dDown is not None and not self._dDown.called and sim.depth == 0:
                 with sim.step("down %d" % self.b):
                     sim.toplevel_down = self.b
@@ -301,12 +335,17 @@ class _Step(object):
         s.cur_obs = s.pending_annot
         s.pending_annot = []
         s.cur_env = {"sh": [], "sd": []}
+        self.xs = None
+        if s.xcur is None:
+            self.xs = s.xstep(None)
+            self.xs.__enter__()
         return self
 
     def __exit__(self, et, ev, tb):
         s = self.sim
         s.depth = 0
-        line = self.line
+        line = s.cur_line_override or self.line
+        s.cur_line_override = None
         if s.cur_env["sh"]:
             line += " sh=" + "/".join(".".join(str(i) for i in p) if p else "" for p in s.cur_env["sh"])
         if s.cur_env["sd"]:
@@ -316,6 +355,8 @@ class _Step(object):
             rd = [o.split(":")[1] for o in s.cur_obs if o.startswith("cancelTimer retry:")]
             if len(rd) > 1:
                 line += " rd=" + ",".join(rd)
+        for b in s.idle_bcs():
+            s.cur_obs.append("t-bcidle %d" % b)
         st = {"line": line, "obs": s.cur_obs, "dump": CC.dump_real(s.client), "timers": s.timers_line(), "t": s.clock.seconds()}
         swallow = False
         if et is not None and issubclass(et, Exception):
@@ -326,12 +367,54 @@ class _Step(object):
             swallow = True
         s.steps.append(st)
         s.cur_obs = None
+        envtoks = [w for w in line.split(" ") if w.startswith(("sh=", "sd=", "rd="))]
+        if self.xs is not None:
+            # a top-level client step IS the composed event
+            w = self.line.split(" ")
+            if w[0] == "advance":
+                s.xcur["line"] = "x-advance %s %s%s" % (w[1], "%FIRST%", "".join(" " + t for t in envtoks))
+            else:
+                s.xcur["line"] = "x-api " + line
+            if swallow:
+                s.xcur["exc"] = True
+            self.xs.__exit__(None, None, None)
+        elif s.xcur is not None:
+            s.xcur["envs"].append(";".join(envtoks) or "-")
+            if swallow:
+                s.xcur["exc"] = True
         return swallow
+
+
+class _XStep(object):
+    """one network-level event (composed model); nested uses are no-ops"""
+
+    def __init__(self, sim, line):
+        self.sim, self.line, self.mine = sim, line, False
+
+    def __enter__(self):
+        s = self.sim
+        if s.xcur is None:
+            self.mine = True
+            s.xcur = {"line": self.line, "seq": [], "envs": []}
+        return self
+
+    def __exit__(self, et, ev, tb):
+        s = self.sim
+        if self.mine:
+            x = s.xcur
+            s.xcur = None
+            if x["line"] is not None:
+                if x["line"].startswith(("x-connok", "x-lost", "x-reply")):
+                    x["line"] += "".join(" " + e for e in x["envs"]) if x["line"].startswith("x-connok") else "".join(" " + t for e in x["envs"] for t in e.split(";") if t != "-")
+                s.xsteps.append(x)
+            elif x["seq"]:
+                s.xstray.extend(repr(e) for e in x["seq"])
+        return False
 
 
 class Sim(object):
     def __init__(self, timeout_ms=10000, disconnect_on_timeout=False, hosts=(("boot", 9092),), shuffle_seed=0,
-                 hold_closes=False, cancel_style="plain", bytes_groups=False, discovery=False):
+                 hold_closes=False, cancel_style="plain", bytes_groups=False, discovery=False, no_jump=False):
         import afkak.client as C
         from afkak import KafkaClient
 
@@ -365,6 +448,14 @@ class Sim(object):
         # group names handed to the client as bytes (accepted everywhere a str is: `_coerce_consumer_group`)
         self.bytes_groups = bytes_groups
         self.released = set()  # cids whose close notification may be delivered
+        self.bc_retry = {}  # id(broker client) -> the DelayedCall of its latest reconnect back-off
+        # the run as NETWORK-level events with the observations at both boundaries (client / broker client), for the
+        # composed model (lean/Afkak/ClientCompose.lean): see xstep / xbc
+        self.xsteps, self.xcur, self.xstray = [], None, []
+        # beyond-model stage: close() called synchronously from an operation's callback (inside another step)
+        self.cur_line_override, self.close_armed, self.nested_close = None, False, False
+        self.no_jump = no_jump
+        self.sync_refuse_left = 0  # broker connection attempts still to be refused synchronously
         self.boot_gone = set()
         self._install_conn_hook()
         self.shuffle_rng = _random.Random(shuffle_seed)
@@ -400,6 +491,25 @@ class Sim(object):
             self.stray.append(line)
         else:
             self.cur_obs.append(line)
+        if not line.startswith(("t-", "late ")):
+            if self.xcur is None:
+                self.xstray.append("cl " + line)
+            else:
+                self.xcur["seq"].append(("cl", line))
+
+    def xbc(self, b, text):
+        """an observation at the broker-client / network boundary (connect, write, lose, timers, fires, down)"""
+        if self.xcur is None:
+            self.xstray.append("bc %s %s" % (b, text))
+        else:
+            self.xcur["seq"].append(("bc", b, text))
+
+    def xstep(self, line):
+        return _XStep(self, line)
+
+    def x_call_fires(self, call):
+        if self.xcur is not None:
+            self.xcur["seq"].append(("call", getattr(call, "_verif_name", None)))
 
     def annot(self, line):
         """an annotation for the monitors (not an observation the model reproduces); outside a step it is
@@ -429,6 +539,25 @@ class Sim(object):
             bc.reported_conn = v
             self.steps.append({"line": "conn %d %d" % (bc.b, 1 if v else 0), "obs": [], "dump": None, "timers": None, "t": self.clock.seconds()})
 
+    def idle_bcs(self):
+        """broker clients (not closed) that have no connection, no connection attempt in progress and no retry
+        scheduled - seen from outside: the protocol, the endpoint factory's pending attempts, the reactor"""
+        out = []
+        for bc in self.bcs:
+            if bc._dDown is not None or bc.proto is not None:
+                continue
+            if any(p.factory is bc for p in self.net.pending):
+                continue
+            dc = self.bc_retry.get(id(bc))
+            if dc is not None and dc.active():
+                continue
+            out.append(bc.b)
+        return out
+
+    def net_quiet(self):
+        """nothing is left on the network: no connection open on the client's side, no attempt pending"""
+        return not self.net.pending and all(c.ct.disconnected for c in self.net.conns)
+
     def what_of(self, rq):
         n = rq["name"]
         if n == "metadata":
@@ -439,6 +568,8 @@ class Sim(object):
             return "payloads:" + ("+".join("%s:%d" % k for k in sorted(set(rq["keys"]))) or "-")
         if n in ("leave", "join", "heartbeat", "sync"):
             return "group:" + rq["extra"]["group"]
+        if n == "apiversions":
+            return "group:apiversions"  # version discovery (beyond-model stage only; the monitors ignore the content)
         return n
 
     def timers_line(self):
@@ -460,6 +591,15 @@ class Sim(object):
             return None
 
         d.addBoth(done)
+        if self.close_armed:
+            self.close_armed = False
+
+            def close_now(r):
+                if self.close_log_idx is None:  # not while (or after) another close() runs
+                    self.api_close()
+                return r
+
+            d.addBoth(close_now)
 
     def canon_result(self, o, r):
         from afkak.common import FailedPayloadsError
@@ -591,10 +731,35 @@ class Sim(object):
             self.ops[o]["d"].cancel()
         self.settle()
 
+    def split_step(self, new_line):
+        """an API call made from inside a callback: the record of the step in progress ends here and what follows is
+        recorded under the new event (the model is NOT compared on such runs; the monitors read the real trace)"""
+        line = self.cur_line_override or self.cur_line
+        if self.cur_env["sh"]:
+            line += " sh=" + "/".join(".".join(str(i) for i in p) if p else "" for p in self.cur_env["sh"])
+        if self.cur_env["sd"]:
+            line += " sd=" + ",".join(str(b) for b in self.cur_env["sd"])
+        self.steps.append({"line": line, "obs": self.cur_obs, "dump": CC.dump_real(self.client), "timers": self.timers_line(), "t": self.clock.seconds()})
+        self.cur_obs = []
+        self.cur_env = {"sh": [], "sd": []}
+        self.cur_line_override = new_line
+        self.nested_close = True
+
     def api_close(self):
         o = self.new_op()
         if self.close_log_idx is None:
             self.close_log_idx = len(self.net.log)
+        if self.depth > 0:
+            self.split_step("close %d" % o)
+            try:
+                d = self.client.close()
+            except AttributeError:
+                self.obs("raised %d AttributeError" % o)
+                d = None
+            if d is not None:
+                self.ops[o] = {"d": d, "result": None, "is_close": True}
+                d.addBoth(lambda r: self.obs("closeFired %d" % o) or None)
+            return o
         with self.step("close %d" % o):
             try:
                 d = self.client.close()
@@ -644,6 +809,13 @@ class Sim(object):
         self.settle()
 
     def advance(self, dt):
+        if self.no_jump:
+            # time only moves up to the next pending delayed call of the reactor (timers fire at their due time)
+            due = [Fraction(c.getTime()).limit_denominator(10**9) for c in self.clock.getDelayedCalls()]
+            if due:
+                gap = min(due) - Fraction(self.clock.seconds()).limit_denominator(10**9)
+                if 0 <= gap < Fraction(dt):
+                    dt = gap
         with self.step("advance %s" % rat(Fraction(dt).limit_denominator(10**6))):
             self.clock.advance(float(Fraction(dt).limit_denominator(10**6)))
         self.settle()
@@ -658,7 +830,8 @@ class Sim(object):
                 conn = self._accept(p, j)
                 self.last_boot_write = j
         else:
-            conn = self._accept(p, None)
+            with self.xstep("x-connok %s" % getattr(p.factory, "b", "?")):
+                conn = self._accept(p, None)
         self.settle()
         return conn
 
@@ -697,6 +870,7 @@ class Sim(object):
                     for bc in sim.bcs:
                         if bc.proto is conn.client_protocol and corr in bc.k_by_corr:
                             sim.annot("t-wrote %d %d" % (bc.k_by_corr[corr], conn.cid))
+                            sim.xbc(bc.b, "%s %d" % ("writeLost" if conn.ct.disconnecting else "write", bc.k_by_corr[corr]))
                 return ow(data)
 
             def lose(*a2, **k2):
@@ -705,6 +879,9 @@ class Sim(object):
                     sim.obs("bootLose %d" % j)
                 else:
                     sim.annot("t-lose %d" % conn.cid)
+                    for bc in sim.bcs:
+                        if bc.proto is conn.client_protocol:
+                            sim.xbc(bc.b, "lose")
                 return ol(*a2, **k2)
 
             conn.ct.write, conn.ct.loseConnection = write, lose
@@ -733,7 +910,8 @@ class Sim(object):
             with self.step("bootfail %d" % j):
                 p.refuse()
         else:
-            p.refuse()
+            with self.xstep("x-connfail %s" % getattr(p.factory, "b", "?")):
+                p.refuse()
         self.settle()
 
     def outstanding(self):
@@ -821,6 +999,8 @@ class Sim(object):
             for e in self.net.log[self.close_log_idx:]:
                 if e[0] == "connect":
                     lines.append("t-net connect %s %s" % (e[1], e[2]))
+            if self.net_quiet():
+                lines.append("t-quiet")
         return lines
 
 
